@@ -71,6 +71,8 @@ def pairs_of_op(op):
         return [(f, t, bool(fn or tn)) for f, fn in op[1] for t, tn in op[2]]
     if k == "connect_single":
         return [(op[1][0], op[2][0], bool(op[1][1] or op[2][1]))]
+    if k == "xsame":
+        return [(op[1], op[2], False)]
     if k == "fanout":
         return [(op[1], b, False) for b in range(op[2], op[3])]
     if k == "reuse":
@@ -203,6 +205,27 @@ class World:
                     M(op[2][0]) >> items
                 else:
                     M(op[2][0]) << items
+            except Exception as e:  # noqa: BLE001
+                return e
+            return False
+        elif k == "xsame":
+            # the other project is made to hold the same link (same positions) as this one, then a single-module
+            # request across the two projects is made: it must be refused like any other
+            F = self.foreign.modules
+            while len(F) <= max(op[1], op[2]):
+                self._mk(self.foreign, "Amplifier")
+            a, b = op[1], op[2]
+            M(a) >> M(b)
+            F[a] >> F[b]
+            try:
+                if op[3] == 0:
+                    M(a) >> F[b]
+                elif op[3] == 1:
+                    F[b] << M(a)
+                elif op[3] == 2:
+                    F[a] >> M(b)
+                else:
+                    M(b) << F[a]
             except Exception as e:  # noqa: BLE001
                 return e
             return False
